@@ -541,6 +541,66 @@ def dense(seed, index):
     return "#pragma version 8\n" + "\n".join(body) + "\n"
 
 
+def deadcode(seed, index):
+    """valid programs (subroutine bodies entered only through callsub) with UNREACHABLE code that branches, calls and falls
+    through into live code: after a terminator (`b`, `return`, `err`, `retsub`) of the main code or of a subroutine come
+    0-3 dead chunks - `b L`, `bz/bnz L`, `switch`, `callsub`, plain fall-through - whose targets are LIVE labels of the same
+    routine; frequently several consecutive dead chunks target the same live label (adjacent dead predecessors)"""
+    r = random.Random(f"deadcode/{seed}/{index}")
+    nsub = r.randrange(1, 4)
+    subs = [f"S{i}" for i in range(nsub)]
+    uid = [0]
+    def filler():
+        return r.choice(["int 1\npop", "txn Fee\npop", "load 0\npop", "int 2\nstore 1"])
+    def dead_chunks(live, closer):
+        """dead code placed right after a terminator"""
+        out = []
+        k = r.choice([0, 1, 2, 2, 3])
+        same = r.choice(live) if live and r.random() < 0.6 else None
+        for _ in range(k):
+            tgt = same or (r.choice(live) if live else None)
+            c = r.random()
+            uid[0] += 1
+            if tgt and c < 0.35: out.append(f"b {tgt}")
+            elif tgt and c < 0.65: out.append(f"{filler()}\nload 2\n{r.choice(['bz', 'bnz'])} {tgt}")
+            elif tgt and c < 0.75: out.append(f"load 2\nswitch {tgt} {r.choice(live)}")
+            elif c < 0.85: out.append(f"callsub {r.choice(subs)}\n{closer}")
+            elif c < 0.93: out.append(f"dead{uid[0]}:\n{filler()}")       # dead label, falls through into what follows
+            else: out.append(f"{filler()}\n{closer}")
+        return out
+    def routine(prefix, closer, callable_subs):
+        nlab = r.randrange(2, 5)
+        labs = [f"{prefix}L{i}" for i in range(nlab)]
+        body = [filler()]
+        # entry part: conditional jumps make every label live
+        for l in labs:
+            body.append(f"load {r.randrange(3)}\n{r.choice(['bz', 'bnz'])} {l}")
+            if callable_subs and r.random() < 0.4: body.append(f"callsub {r.choice(callable_subs)}")
+        body.append(closer)
+        body += dead_chunks(labs, closer)
+        order = labs[:]; r.shuffle(order)
+        for l in order:
+            body.append(f"{l}:")
+            body.append(filler())
+            c = r.random()
+            if c < 0.25 and callable_subs: body.append(f"callsub {r.choice(callable_subs)}")
+            if c < 0.45: term = closer
+            elif c < 0.6: term = f"b {r.choice(labs)}"
+            elif c < 0.7: term = "err"
+            elif c < 0.8: term = closer
+            else: term = None                                           # falls through into the next label (or the end)
+            if term:
+                body.append(term)
+                body += dead_chunks(labs, closer)
+        body.append(closer)
+        return body
+    lines = ["#pragma version 8"] + routine("M", "int 1\nreturn", subs)
+    for i, sname in enumerate(subs):
+        lines.append(f"{sname}:")
+        lines += routine(sname, "retsub", subs[i + 1:] if r.random() < 0.7 else [])
+    return "\n".join(lines) + "\n"
+
+
 TWOFIELD_KINDS = [None, ("TypeEnum", "pay"), ("TypeEnum", "axfer"), ("TypeEnum", "appl"), ("TypeEnum", "keyreg"),
                   ("OnCompletion", "UpdateApplication"), ("OnCompletion", "DeleteApplication"), ("OnCompletion", "NoOp")]
 TWOFIELD_ADDR = [None, ("CloseRemainderTo", "global ZeroAddress", "=="), ("AssetCloseTo", "global ZeroAddress", "=="),
